@@ -1,6 +1,6 @@
 PROP = dict(
         coq="Properties/C15.v",
-        tie_coq=["Properties/TieC15.v"],
+        tie_coq=["Properties/TieC15.v", "Properties/TieC17.v"],  # TieC17: c15_unwrapped_total_partial rests on Market.mrun (market hook never panics)
         workloads=[
             dict(name="hooks", go_test="TestC15", runner="C15",
                  env=dict(quick=dict(VERIF_STRIDE=7), thorough=dict(VERIF_STRIDE=1)),
